@@ -7,6 +7,7 @@ package main
 
 import (
 	"context"
+	"encoding/json"
 	"fmt"
 	"net"
 	"sort"
@@ -399,4 +400,42 @@ func dialOnceScenario(rng *RNG) string {
 	}
 	mu.Unlock()
 	return fmt.Sprintf("cc dial callers=%d during=%d total=%d failed=%d openafterclose=%d", g, during, total, failed, open)
+}
+
+// riMarshalScenario (C09): the client's debug state (gohbase.DebugState → region info MarshalJSON)
+// is rendered while a connection is being lost and re-established, i.e. while other goroutines
+// set and clear the region's client. Rendering must not crash.
+func riMarshalScenario(rng *RNG) string {
+	r := region.NewInfo(1, nil, []byte("t"), []byte("t,,1.x."), nil, nil)
+	rc := &ccConn{id: 1, addr: "rs:1"}
+	stop := make(chan struct{})
+	var wg sync.WaitGroup
+	wg.Add(1)
+	go func() {
+		defer wg.Done()
+		for {
+			select {
+			case <-stop:
+				return
+			default:
+			}
+			r.SetClient(rc)
+			r.SetClient(nil)
+		}
+	}()
+	panics := 0
+	n := 20000 + rng.Intn(20000)
+	for i := 0; i < n; i++ {
+		func() {
+			defer func() {
+				if recover() != nil {
+					panics++
+				}
+			}()
+			json.Marshal(r)
+		}()
+	}
+	close(stop)
+	wg.Wait()
+	return fmt.Sprintf("ri marshal renders=%d panics=%d", n, panics)
 }
